@@ -435,7 +435,14 @@ def check_case(inp, order, keep, action):
             fails.append(('exception', 'remap raised %s on a valid input' % exc))
     else:
         impl_lit = '(Some %s)' % pulse_lit(q)
-        fails += against_scratch(inp, q, order, inp['mapping'])
+        m = inp['mapping']
+        valid = sorted(order) == list(range(inp['N'])) and (m is None or (
+            all(i in m for i in inp['c_ids'] + inp['n_ids'])
+            and len({m[i] for i in inp['c_ids']}) == len(inp['c_ids']) and len({m[i] for i in inp['n_ids']}) == len(inp['n_ids'])))
+        if not valid:
+            fails.append(('exception', 'remap accepted an invalid order / identifier mapping'))
+        else:
+            fails += against_scratch(inp, q, order, inp['mapping'])
     text = lambda name: ('Definition %s : N*N*N := remap_tally %s %s 2 %s %s.\n' % (
         name, p_lit, natlist(order), mapping_lit(inp['mapping']), impl_lit))
     nontrivial = q is not None and (q._control_matrix is None or np.abs(q._control_matrix).max() > 0)
